@@ -52,7 +52,7 @@ def main():
         "setup_cmd": "./check selftest",
         "hooks": {
             "guard": "PY_GQL_VERIF",
-            "enable": "no source hooks are needed: checks import /repo/src directly (PYTHONPATH) and use existing seams (AsyncIORuntime(loop=), ThreadPoolRuntime._inner, sys.settrace); PY_GQL_VERIF=1 is exported by ./check but nothing in /repo reads it",
+            "enable": "no source hooks are needed: checks import /repo/src directly (PYTHONPATH) and use existing seams (AsyncIORuntime(loop=), ThreadPoolRuntime._inner, sys.monitoring); PY_GQL_VERIF=1 is exported by ./check but nothing in /repo reads it",
             "baseline_off_cmd": BASELINE,
             "source_commits": [],
             "add_only": True,
@@ -62,7 +62,7 @@ def main():
                 "name": "mc",
                 "path": "mc/",
                 "serves_properties": [c["property_id"] for c in checks],
-                "kind_free_text": "hand-written bounded-exhaustive explorers in Python: E1 choice-sequence (schedule / fault) explorer on a virtual asyncio loop, a controlled pool and a settrace baton scheduler; E2 breadth-first search over call histories; E3 exhaustive structural enumeration against reference models",
+                "kind_free_text": "hand-written bounded-exhaustive explorers in Python: E1 choice-sequence (schedule / fault) explorer on a virtual asyncio loop, a controlled pool and a sys.monitoring baton scheduler; E2 breadth-first search over call histories; E3 exhaustive structural enumeration against reference models",
             }
         ],
         "checks": checks,
